@@ -56,6 +56,8 @@ def collect_mutants(filters):
     for meta in sorted(glob.glob(os.path.join(ROOT, "seeded", "*", "meta.json"))):
         m = json.load(open(meta))
         d = os.path.dirname(meta)
+        if m.get("retired"):
+            continue  # the code site it changes no longer exists (see meta.json)
         muts.append((os.path.basename(d), m.get("check_with", m["property"]), os.path.join(d, "patch.diff"), "seeded"))
     if filters:
         muts = [m for m in muts if any(f in m[0] for f in filters)]
